@@ -308,6 +308,10 @@ func checkCallers(r *engine.Report, p *engine.Program, rule string, fnName strin
 	var extra []string
 	for _, g := range got {
 		if !allow[g] {
+			// a private helper extracted from a table member (called only from table members) is the member's own code
+			if h := p.Func(g); h != nil && privateHelperOf(p, h, allow) != "" {
+				continue
+			}
 			extra = append(extra, g)
 		}
 	}
@@ -368,4 +372,215 @@ func valEqEdges(fn *ssa.Function, isA, isB func(ssa.Value) bool) (eq, ne []engin
 		}
 		return false, false
 	})
+}
+
+// argRows returns, for a call, the list of argument tuples it is executed with: the call's own
+// arguments, or — when every argument is a field of the element variable of a range over a slice
+// literal (table-driven form) — one tuple per row of the literal, in row order.
+func argRows(ci ssa.CallInstruction) [][]ssa.Value {
+	args := ci.Common().Args
+	rows, ok := literalRowsOf(args)
+	if ok {
+		return rows
+	}
+	return [][]ssa.Value{append([]ssa.Value{}, args...)}
+}
+
+// literalRowsOf: each arg is `*(&elem.f_k)` with elem a copy of lit[i]; returns lit's rows projected on the f_k.
+func literalRowsOf(args []ssa.Value) ([][]ssa.Value, bool) {
+	if len(args) == 0 {
+		return nil, false
+	}
+	var arr *ssa.Alloc
+	idx := make([]int, len(args))
+	for i, a := range args {
+		u, ok := a.(*ssa.UnOp)
+		if !ok || u.Op != token.MUL {
+			return nil, false
+		}
+		fa, ok := u.X.(*ssa.FieldAddr)
+		if !ok {
+			return nil, false
+		}
+		idx[i] = fa.Field
+		// element: a local copy of lit[i], or lit[i] itself
+		var elemAddr ssa.Value = fa.X
+		if cell, isCell := elemAddr.(*ssa.Alloc); isCell {
+			var src ssa.Value
+			n := 0
+			if refs := cell.Referrers(); refs != nil {
+				for _, rr := range *refs {
+					if st, ok := rr.(*ssa.Store); ok && st.Addr == ssa.Value(cell) {
+						n++
+						src = st.Val
+					}
+				}
+			}
+			if n != 1 {
+				return nil, false
+			}
+			ld, ok := src.(*ssa.UnOp)
+			if !ok || ld.Op != token.MUL {
+				return nil, false
+			}
+			elemAddr = ld.X
+		}
+		ia, ok := elemAddr.(*ssa.IndexAddr)
+		if !ok {
+			return nil, false
+		}
+		var base ssa.Value = ia.X
+		if sl, ok := base.(*ssa.Slice); ok {
+			base = sl.X
+		}
+		al, ok := base.(*ssa.Alloc)
+		if !ok {
+			return nil, false
+		}
+		if _, isArr := al.Type().Underlying().(*types.Pointer).Elem().Underlying().(*types.Array); !isArr {
+			return nil, false
+		}
+		if arr != nil && arr != al {
+			return nil, false
+		}
+		arr = al
+	}
+	// rows of the literal
+	type row struct {
+		i    int64
+		vals map[int]ssa.Value
+	}
+	var rows []row
+	if refs := arr.Referrers(); refs != nil {
+		for _, rr := range *refs {
+			ia, ok := rr.(*ssa.IndexAddr)
+			if !ok {
+				continue
+			}
+			k, isC := engine.ConstInt(ia.Index)
+			if !isC {
+				continue // the ranged access
+			}
+			rw := row{i: k, vals: map[int]ssa.Value{}}
+			if irefs := ia.Referrers(); irefs != nil {
+				for _, x := range *irefs {
+					switch y := x.(type) {
+					case *ssa.Store: // *(&lit[i]) = *complit
+						if ld, ok := y.Val.(*ssa.UnOp); ok && ld.Op == token.MUL {
+							if c, ok := ld.X.(*ssa.Alloc); ok {
+								if crefs := c.Referrers(); crefs != nil {
+									for _, z := range *crefs {
+										if fa, ok := z.(*ssa.FieldAddr); ok {
+											if fr := fa.Referrers(); fr != nil {
+												for _, w := range *fr {
+													if st, ok := w.(*ssa.Store); ok && st.Addr == ssa.Value(fa) {
+														rw.vals[fa.Field] = st.Val
+													}
+												}
+											}
+										}
+									}
+								}
+							}
+						}
+					case *ssa.FieldAddr: // &lit[i].f = v
+						if fr := y.Referrers(); fr != nil {
+							for _, w := range *fr {
+								if st, ok := w.(*ssa.Store); ok && st.Addr == ssa.Value(y) {
+									rw.vals[y.Field] = st.Val
+								}
+							}
+						}
+					}
+				}
+			}
+			rows = append(rows, rw)
+		}
+	}
+	if len(rows) == 0 {
+		return nil, false
+	}
+	sort.Slice(rows, func(a, b int) bool { return rows[a].i < rows[b].i })
+	var out [][]ssa.Value
+	for _, rw := range rows {
+		t := make([]ssa.Value, len(args))
+		for i, k := range idx {
+			v, ok := rw.vals[k]
+			if !ok {
+				return nil, false
+			}
+			t[i] = v
+		}
+		out = append(out, t)
+	}
+	return out, true
+}
+
+// privateHelperOf: fn is an unexported function or method that is never used as a value and is
+// called only from functions of the allowed table (or from other such helpers of them); returns
+// the name of one allowed caller, "" otherwise. A frozen who-may table thereby extends to private
+// helpers extracted from its members.
+func privateHelperOf(p *engine.Program, fn *ssa.Function, allowed map[string]bool) string {
+	return privateHelperOfDepth(p, fn, allowed, 0)
+}
+
+func privateHelperOfDepth(p *engine.Program, fn *ssa.Function, allowed map[string]bool, depth int) string {
+	if fn == nil || fn.Parent() != nil || depth > 2 {
+		return ""
+	}
+	obj, _ := fn.Object().(*types.Func)
+	if obj == nil || obj.Exported() || fnValueUses(p, fn) > 0 {
+		return ""
+	}
+	owner := ""
+	n := 0
+	for _, cs := range p.CallSitesOf(obj) {
+		if engine.IsMock(cs.Parent()) {
+			continue
+		}
+		n++
+		caller := engine.Outermost(cs.Parent())
+		name := engine.FuncName(caller)
+		if !allowed[name] {
+			if privateHelperOfDepth(p, caller, allowed, depth+1) == "" {
+				return ""
+			}
+		}
+		owner = name
+	}
+	if n == 0 {
+		return ""
+	}
+	return owner
+}
+
+// mustPassEdges decides "target is executed only after one of the conditions found by find held":
+// with the edges find(fn) removed, target is unreachable from fn's entry; or, when fn is a private
+// helper (unexported, never used as a value), the same holds at every call site of fn (depth <= 2).
+func mustPassEdges(p *engine.Program, fn *ssa.Function, target ssa.Instruction, find func(*ssa.Function) []engine.Edge, depth int) bool {
+	edges := find(fn)
+	if len(edges) > 0 {
+		cut := engine.EdgeSet{}.Add(edges...)
+		if engine.Reach(fn, nil, cut, nil, func(in ssa.Instruction) bool { return in == target }) == nil {
+			return true
+		}
+	}
+	if depth >= 2 || fn.Parent() != nil {
+		return false
+	}
+	obj, _ := fn.Object().(*types.Func)
+	if obj == nil || obj.Exported() || fnValueUses(p, fn) > 0 {
+		return false
+	}
+	n := 0
+	for _, cs := range p.CallSitesOf(obj) {
+		if engine.IsMock(cs.Parent()) {
+			continue
+		}
+		n++
+		if !mustPassEdges(p, cs.Parent(), cs, find, depth+1) {
+			return false
+		}
+	}
+	return n > 0
 }
